@@ -242,10 +242,59 @@ def valid_pto(c):
     return True
 
 
+# ---- persistent congestion calculator ---------------------------------------------------------------
+def gen_pc(rng):
+    has_first = 1 if rng.random() < 0.9 else 0
+    first = rng.choice([1, 1, 1000, rng.randrange(1, 200000)])
+    cpath = rng.choice([0, 0, 1])
+    n = rng.choice([1, 2, 3, 5, 8, 14, 25])
+    out = [has_first, first, cpath]
+    for k in range(n):
+        gap = rng.choice([1, 1, 1, 1, 1, 2, 3]) if k else rng.choice([0, 1, 7, 100])
+        dt = rng.choice([0, 1, 1000, 50000, 400000, rng.randrange(0, 2000000)])
+        ae = rng.choice([1, 1, 1, 0])
+        path = cpath if rng.random() < 0.85 else 1 - cpath
+        out += [gap, dt, ae, path]
+    return out
+
+
+def fixed_pc(tier):
+    import itertools
+    out = []
+    # all sequences of up to 4 (quick) / 5 packets over (gap in {1,2}) x (ae) x (same path?) with 1 s spacing
+    alpha = [(g, ae, p) for g in (1, 2) for ae in (0, 1) for p in (0, 1)]
+    L = 4 if tier == "quick" else 5
+    for n in range(1, L + 1):
+        for t in itertools.product(alpha, repeat=n):
+            c = [1, 500000, 0]
+            for (g, ae, p) in t:
+                c += [g, 1000000, ae, p]
+            out.append(c)
+    out.append([0, 0, 0, 1, 1000000, 1, 0, 1, 1000000, 1, 0])
+    out.append([1, 5000000, 0, 1, 1000000, 1, 0, 1, 1000000, 1, 0, 1, 3000000, 1, 0, 1, 1000000, 1, 0])
+    return out
+
+
+def valid_pc(c):
+    if len(c) < 3 or (len(c) - 3) % 4 != 0 or any(v < 0 for v in c):
+        return False
+    if c[1] >= TMAX or c[2] > 1:
+        return False
+    for i in range(3, len(c), 4):
+        o = c[i:i + 4]
+        if o[0] > 1000 or o[1] > (1 << 36) or o[3] > 1:
+            return False
+    return True
+
+
 # ---- manager --------------------------------------------------------------------------------------
 def gen_manager(rng):
     space = rng.choice([0, 1, 2, 2, 2])
     conf = rng.choice([0, 1, 1]) if space == 2 else rng.choice([0, 0, 1])
+    client = rng.random() < 0.35
+    if client and rng.random() < 0.5:
+        space = 0                                  # Retry matters in the Initial space
+    conf |= 2 if client else 0
     hdr = [space, conf, rng.choice([0, 25, 25, 100]), rng.choice([1, 1000, rng.randrange(1, 1 << 32)])]
     n = rng.choice([2, 4, 8, 16, 30, 60])
     ops = []
@@ -260,7 +309,7 @@ def gen_manager(rng):
                 last = (gap - 1 if gap >= 1 else 0) if last is None else last + max(gap, 1)
                 byt = rng.choice([0, 1, 50, 1200, 1200, 1500, rng.randrange(1, 1501)])
                 ae = 0 if byt == 0 and rng.random() < 0.9 else rng.choice([0, 1, 1, 1])
-                path = rng.choice([0, 0, 1]) if space == 2 else 0
+                path = rng.choice([0, 0, 1]) if space == 2 else rng.choice([0, 0, 0, 1])   # forced to 0 by the driver when single-path
                 ops += [1, gap, byt, ae, rng.choice([0, 1, 10, 100, 1000, rng.randrange(0, 20000)]) * scale // 10, path, 0, 0]
             if rng.random() < 0.85:
                 ops += [2, rng.choice([0, 0, 1, 50]), 0, 0, 0, 0, 0, 0]
@@ -276,13 +325,17 @@ def gen_manager(rng):
             gap2 = rng.choice([0, 0, 1, 2])
             len2 = rng.choice([0, 0, 1, 2, 4])
             dt = rng.choice([0, 100, 1000, 10000, 40000, 112000, 333000, 375000, 400000, rng.randrange(0, 500000)]) * scale // 10
-            ops += [rng.choice([3, 3, 4]) if space == 2 else 3, dt, lg, len1, gap2, len2, rng.choice([0, 0, 1000, 25000, rng.randrange(0, 60000)]), 0]
+            ops += [rng.choice([3, 3, 4]), dt, lg, len1, gap2, len2, rng.choice([0, 0, 1000, 25000, rng.randrange(0, 60000)]), 0]
         elif q < 0.97:
             dt = rng.choice([0, 999, 1000, 10000, 41000, 42000, 375000, 1000000, 1100000, 2500000, rng.randrange(0, 3000000)]) * scale // 10
             ops += [5, dt, 0, 0, 0, 0, 0, 0]
+        elif client and rng.random() < 0.6:
+            ops += [rng.choice([7, 8, 8]), 0, 0, 0, 0, 0, 0, 0]
         elif space != 2:
             ops += [6, 0, 0, 0, 0, 0, 0, 0]
             break
+        else:
+            ops += [rng.choice([6, 7, 8]), 0, 0, 0, 0, 0, 0, 0]    # ignored / no-ops here
     if space != 2 and rng.random() < 0.5 and (not ops or ops[-8] != 6):
         ops += [6, 0, 0, 0, 0, 0, 0, 0]
     return hdr + ops
@@ -307,6 +360,12 @@ def fixed_manager(tier):
         out.append(h + S(1, 100, 1, 0) + S(1, 200, 1, 5) + S(1, 300, 0, 5) + S(2, 400, 1, 5) + B + A(50000, 1, 1) + A(10, 1, 1) + A(10, 4, 4) + A(10, 0) + A(5, 9))
     out.append([1, 0, 25, 1000] + S(1, 1200, 1, 0) + S(1, 0, 0, 10) + S(1, 700, 1, 10) + B + A(50000, 1) + D)
     out.append([0, 0, 25, 1000] + S(1, 1200, 1, 0) + S(1, 1200, 1, 10) + D)
+    # client: PTO armed without packets in flight until the peer validated; Retry discards everything
+    for space in (0, 1):
+        h = [space, 2, 25, 1000]
+        out.append(h + S(1, 1200, 1, 0) + S(1, 1200, 1, 10) + B + [7, 0, 0, 0, 0, 0, 0, 0] + S(1, 1200, 1, 10) + B + A(50000, 2) + T(400000) + [8, 0, 0, 0, 0, 0, 0, 0] + T(400000) + S(1, 300, 1, 5) + B + A(60000, 3) + D)
+        out.append(h + S(1, 1200, 1, 0) + B + A(50000, 0) + T(2000000) + T(4000000) + [8, 0, 0, 0, 0, 0, 0, 0] + S(1, 10, 1, 1) + B + A(50000, 1) + T(5000000) + [7, 0, 0, 0, 0, 0, 0, 0] + [7, 0, 0, 0, 0, 0, 0, 0])
+    out.append([2, 3, 25, 1000] + S(1, 1200, 1, 0, 1) + S(1, 100, 1, 10, 0) + B + A(50000, 1, 0, 0, 0, 0, 1) + [6, 0, 0, 0, 0, 0, 0, 0] + T(500000))
     # two paths
     out.append([2, 1, 25, 1000] + S(1, 1200, 1, 0, 0) + S(1, 1000, 1, 10, 1) + S(1, 800, 1, 10, 0) + S(1, 600, 1, 10, 1) + S(1, 400, 1, 10, 1) + B
                + A(80000, 4, 0, 0, 0, 0, 1) + A(100, 2, 0, 0, 0, 0, 0) + T(500000) + T(3000000))
@@ -317,13 +376,13 @@ def valid_manager(c):
     if len(c) < 4 or (len(c) - 4) % 8 != 0 or any(v < 0 for v in c):
         return False
     space = c[0]
-    if space > 2 or c[2] >= (1 << 14) or not (1 <= c[3] < (1 << 40)):
+    if space > 2 or c[1] > 3 or c[2] >= (1 << 14) or not (1 <= c[3] < (1 << 40)):
         return False
     t = 0
     for i in range(4, len(c), 8):
         o = c[i:i + 8]
         if o[0] == 1:
-            if o[2] > 1500 or o[1] > 1000 or o[4] > (1 << 32) or o[5] > 1 or (space != 2 and o[5] != 0):
+            if o[2] > 1500 or o[1] > 1000 or o[4] > (1 << 32) or o[5] > 1:
                 return False
             t += o[4]
         elif o[0] in (2, 3, 4, 5):
@@ -333,10 +392,8 @@ def valid_manager(c):
             if o[0] in (3, 4):
                 if o[2] > (1 << 40) or o[3] > 1000 or o[4] > 1000 or o[5] > 1000 or o[6] > (1 << 30):
                     return False
-                if o[0] == 4 and space != 2:
-                    return False
         elif o[0] == 6:
-            if space == 2 or i + 8 != len(c):
+            if space != 2 and i + 8 != len(c):
                 return False
     return t < (1 << 38)
 
@@ -392,6 +449,10 @@ registry.register("C09", {
          "valid": valid_pto,
          "nontrivial": lambda case, out: 1 in out[0::4],
          "histogram": lambda cases, outs: {"expiries": sum(o.split()[0::4].count("1") for o in outs)}},
+        {"name": "pc", "gen": gen_pc, "fixed": fixed_pc, "quick": 15000, "thorough": 300000,
+         "valid": valid_pc,
+         "nontrivial": lambda case, out: any(v > 0 for v in out),
+         "histogram": lambda cases, outs: {"positive": sum(1 for o in outs if any(t != "0" for t in o.split()))}},
         {"name": "manager", "gen": gen_manager, "fixed": fixed_manager, "quick": 8000, "thorough": 100000,
          "valid": valid_manager,
          "nontrivial": lambda case, out: len(case) > 4 + 24 and any(case[i] in (3, 4) for i in range(4, len(case), 8)),
@@ -400,13 +461,14 @@ registry.register("C09", {
     "rule": "loss: estimator built from 0-3 samples, send/now placed at the time threshold +-{0,1,2,999,1000,1001} us and packet distance in {1..5, random}; "
             "rtt: sample sequences clustered around a base RTT with +-8 ns offsets (truncation), ack delays around min_rtt+ack_delay<latest, max_ack_delay, persistent congestion resets, backoff 0..2^20; "
             "pto: all op sequences of length <= 4 (quick) / 5 (thorough) over a 9-op alphabet plus random sequences with timeouts at expiration +-{0,1,999,1000,1001} us. "
-            "manager: a server-side recovery::Manager with two validated paths (Initial/Handshake: one), bursts of 1-6 packets (sizes 0..1500, ack-eliciting or not), ACK frames of one or two ranges around recent packet numbers (stale, duplicate, overlapping, beyond-sent), timeouts at 0..3 s, space discard, time scales 0.1x-10x; "
+            "manager: recovery::Manager on the server (two validated paths in ApplicationData, one otherwise) or the client (one path, peer validation pending until signalled, Retry), bursts of 1-6 packets (sizes 0..1500, ack-eliciting or not), ACK frames of one or two ranges around recent packet numbers (stale, duplicate, overlapping, beyond-sent), timeouts at 0..3 s, space discard, time scales 0.1x-10x; "
+            "pc: persistent_congestion::Calculator fed with lost packets (gaps 1-3, spacing 0-2 s, ack-eliciting or not, foreign-path packets interleaved), all sequences of <= 4/5 packets over an 8-letter alphabet; non-trivial when a positive duration is reported; "
             "A loss case is non-trivial when the packet threshold alone does not decide it; an rtt case when it has at least two samples; a pto case when the timer expires at least once; a manager case when it has at least 3 ops and an ACK frame",
     "assumptions": [
         "durations below 2^40 ns, timestamps below 2^50 us, backoff below 2^20: the u64 microsecond product in pto_period does not overflow (the harness is built with overflow checks and would panic)",
         "`Duration::as_nanos() as u64` truncations are not modelled (durations above 584 years)",
-        "manager: the driver (verif hook) completes an open transmission burst before it hands an ACK frame, a timeout or a discard to the manager, rejects ACK frames whose largest acknowledged exceeds the last packet number sent (as the packet space does), keeps both paths validated and not amplification limited, ECN off, no MTU probes, PTO jitter 0, Retry not driven",
-        "manager: the judgement proved to accept every run of the model is the one with one timer granularity of slack on a lost packet's age (Recovery.judge_tol, histories without discard); the property judgement proper (Recovery.judge) differs from it only in that comparison and is proved to reject the model on the recorded finding's input",
+        "manager: the driver (verif hook) completes an open transmission burst before it hands an ACK frame, a timeout or a discard to the manager, rejects ACK frames whose largest acknowledged exceeds the last packet number sent (as the packet space does), keeps both paths validated and not amplification limited, ECN off, no MTU probes, PTO jitter 0; Initial/Handshake spaces and the client use one path (the driver forces path 0), a discard in ApplicationData and a Retry on a server are ignored",
+        "manager: the judgement proved to accept every run of the model is the one with one timer granularity of slack on a lost packet's age (Recovery.judge_tol, all histories incl. discard and Retry); the property judgement proper (Recovery.judge) differs from it only in that comparison and is proved to reject the model on the recorded finding's input",
     ],
     "trusted_base": ["no axioms: Print Assumptions reports 'Closed under the global context' for every C09 theorem"],
     "explanation": "Coq theorems C09_* over models of loss.rs / rtt_estimator.rs / pto.rs / timestamp.rs; models tied to the source by generated constants and by differential execution of the extracted models against the real code",
